@@ -31,12 +31,18 @@ int main()
         QMap<const Handler *, int> ids;
         QList<HandlerPtr> keep; // keep every handler alive so addresses are never reused
         int n = 0;
+        QSharedPointer<Fm> lastFormatter; // for 'R': setFormatter with the same object again
         std::ostringstream o;
         for (char c : line) {
             switch (c) {
             case 'A': { auto h = QSharedPointer<A>::create(); ids[h.data()] = n; keep << h; p.appendAttrHandler(h); break; }
             case 'F': { auto h = QSharedPointer<F>::create(); ids[h.data()] = n; keep << h; p.appendFilter(h); break; }
-            case 'M': { auto h = QSharedPointer<Fm>::create(); ids[h.data()] = n; keep << h; p.setFormatter(h); break; }
+            case 'M': { auto h = QSharedPointer<Fm>::create(); ids[h.data()] = n; keep << h; lastFormatter = h; p.setFormatter(h); break; }
+            case 'R': {
+                if (!lastFormatter) { lastFormatter = QSharedPointer<Fm>::create(); ids[lastFormatter.data()] = n; keep << lastFormatter; }
+                p.setFormatter(lastFormatter);
+                break;
+            }
             case 'S': { auto h = QSharedPointer<S>::create(); ids[h.data()] = n; keep << h; p.appendSink(h); break; }
             case 'P': { auto h = PipelinePtr::create(); ids[h.data()] = n; keep << h; p.appendPipeline(h); break; }
             case 'a': p.clearAttrHandlers(); break;
